@@ -23,6 +23,7 @@ ASSUMPTIONS = [
 
 
 ROOT = os.path.dirname(os.path.dirname(os.path.dirname(os.path.abspath(__file__))))
+from ..rundir import GEN as _GEN  # noqa: E402
 EXTRA_PROOF_FILES = ["generated/Facts_effects_C08.v"]
 TRUSTED_EXTRA = ["fact translator harness/facts/effects.py (python ast) regenerates coq/generated/Facts_effects_C08.v from /repo on every run: the wrappers write no state that outlives one call (closure variables, the decorated function, the tables)"]
 
@@ -30,7 +31,7 @@ TRUSTED_EXTRA = ["fact translator harness/facts/effects.py (python ast) regenera
 def regenerate_facts():
     from ..facts import effects
     try:
-        d = effects.emit(os.environ.get("KV_REPO", "/repo"), os.path.join(ROOT, "coq", "generated", "Facts_effects_C08.v"))
+        d = effects.emit(os.environ.get("KV_REPO", "/repo"), os.path.join(_GEN, "Facts_effects_C08.v"))
         if d["bad"]:
             return True, "stores to state shared between calls: " + "; ".join(effects.key(w) for w in d["bad"][:4])
         return True, ""
